@@ -293,14 +293,18 @@ def check_deliveries(env, evs, viol):
     counts = {}
     cur = None
     setup_done_state = None
+    nameonly_seen = {}
     for a in env.actions:
         if a[0] == 'deliver':
             e = event_of(a[2])
             if e is None:
-                # payload without a marker: the name-only single-line form; attribute by name + emptiness
+                # payload without a marker: the name-only single-line form; the i-th such delivery to a listener belongs to
+                # the i-th name-only event of that name (arrival order is checked separately)
                 cands = [x for x in evs if EVENT_FORMS[x['form']][0] == 'single' and EVENT_FORMS[x['form']][1] == ''
                          and x['name'] == a[1].name]
-                e = cands[0] if cands else None
+                seen_n = nameonly_seen.get(a[1], 0)
+                nameonly_seen[a[1]] = seen_n + 1
+                e = cands[min(seen_n, len(cands) - 1)] if cands else None
             if e is None:
                 viol.append(('foreign-delivery', 'unknown-payload', '%r received %r' % (a[1], a[2])))
                 continue
